@@ -128,6 +128,21 @@ pub fn renderer_sweep(d: &Data) -> Vec<Call> {
             v.push(run_call(vec![format!("[] > {m}")], vec![c.clone()]));
         }
     }
+    // two features toggled at once: segments that need two diacritics, or that sit between
+    // several cardinals (a fixed pseudo-random sample, the same in every run)
+    {
+        let mut r = Rng::new(0x5eed_2d1a);
+        for _ in 0..2500 {
+            let m1 = r.pick(&mods).trim_matches(|c| c == '[' || c == ']').to_string();
+            let m2 = r.pick(&mods).trim_matches(|c| c == '[' || c == ']').to_string();
+            let words: Vec<String> = (0..4).map(|_| r.pick(&d.cardinals).clone()).collect();
+            let mut c = run_call(vec![format!("[] > [{m1}, {m2}]")], words);
+            if r.chance(1, 3) {
+                c.from = vec!["C => +@{acute}".to_string(), "V => +@{grave}".to_string()];
+            }
+            v.push(c);
+        }
+    }
     // the same toggles rendered through a `+` romaniser: that path asks for the *nearest*
     // cardinal (Segment::get_nearest_grapheme), a second place where ties are broken
     for m in &mods {
